@@ -12,6 +12,10 @@ E: for each instance the real node is built through the public API, the real
          including dtype, axes and tags.
    NumPy applied to the token arrays is the third voice ("oracle" clause):
    spec != NumPy is a machinery failure, never a violation.
+M: spec/PtLower.tla states the lowering RULES (roll, transpose, stack,
+   concatenate, basic index, reshape in both orders) as functions from node
+   parameters to expression ASTs and TLC model-checks Ev(Lower(n)) = Val(n)
+   over the whole bounded parameter space -- independent of pytato's code.
 """
 from __future__ import annotations
 
@@ -199,6 +203,15 @@ def main(tier: str, only: list[dict] | None = None) -> int:
             kinds[b["kind"]] = kinds.get(b["kind"], 0) + 1
             if b["nelem"] > 1:
                 nontrivial += 1
+    # design level: the lowering RULES themselves, model-checked (spec/PtLower.tla)
+    design_states = 0
+    if only is None:
+        for cfg in (["PtLower.cfg"] if tier == "quick" else ["PtLower.cfg", "PtLower3.cfg"]):
+            r = tlc.run_tlc("PtLower", cfg, workers=4, timeout=1200)
+            if r.error or r.violated:
+                raise MachineryError(f"PtLower ({cfg}): the specification's own lowering rules "
+                                     f"are not correct: {r.violated} {r.error}")
+            design_states += r.distinct
     val = tlc.validate_records("PtCheck", "PtCheck.cfg", records, timeout=3000)
     for rec in records:
         v = val.verdicts[rec["id"]]
@@ -217,7 +230,8 @@ def main(tier: str, only: list[dict] | None = None) -> int:
                       sig={"id": pid, "clause": v, "which": which,
                            "op": by_id[pid]["calls"][0]["op"]})
     run.coverage.update({
-        "states": val.states, "transitions": val.transitions,
+        "states": val.states + design_states, "transitions": val.transitions,
+        "design_rule_instances_model_checked": design_states,
         "traces_validated_against_impl": len(records),
         "evaluations": len(progs), "distinct_nontrivial": nontrivial,
         "rule": "one instance per (node kind, parameter tuple) in the bounded scope; "
